@@ -199,6 +199,15 @@ func SignHashed(rand io.Reader, priv, e []byte) (r, s []byte, err error) {
 			continue
 		}
 
+		// k must lie in [1, n-1]
+		var kAcc byte
+		for _, b := range K {
+			kAcc |= b
+		}
+		if kAcc == 0 {
+			continue
+		}
+
 		var kG *internal.SM2Point
 		KK := K[:]
 		kG, err = internal.ScalarBaseMult(KK)
